@@ -16,7 +16,7 @@ def apply(F):
     spec fn k_decap(sk_r: Bytes, pk_sm: Option<Bytes>, enc: Bytes) -> Option<Bytes>;
 ''')
     F.contract(T, r'fn sk_to_pk\b', ret='r', clauses='''
-        ensures /*@C03 C01*/ r.ser() == Self::k_pk_of(sk.ser());
+        ensures /*@C03 ~C01*/ r.ser() == Self::k_pk_of(sk.ser());
 '''.rstrip().rstrip(';'))
     F.contract(T, r'fn derive_keypair\b', ret='r', clauses='''
         ensures /*@C03 C02*/ (r.0.ser(), r.1.ser()) == Self::k_derive(ikm@),
